@@ -21,7 +21,7 @@ META = {
         'R6: the skip test dominates every write of a lexicon. R10: _update_lookup_tables registers, unconditionally and '
         'unfiltered, the relation types of all synset relations (external synsets included) and all sense relations of the '
         'lexicon being added, so no later sub-select depends on lookup rows left by other lexicons. R11: no INSERT of the '
-        'importer uses REPLACE conflict handling, and OR IGNORE only on the shared lookup tables. R12 a content table without an owner column receives rows only from local elements or through a parent keyed by the lexicon being added (known findings: tags, pronunciations). R13 lexicon look-ups by id also constrain the version. R14 the importer never modifies its input (C07-R3 on _add). R15 remove() deletes what the specifier means: the limit / order / match analysis of find_lexicons (C08-R2, C08-R3).'),
+        'importer uses REPLACE conflict handling, and OR IGNORE only on the shared lookup tables. R12 a content table without an owner column receives rows only from local elements or through a parent keyed by the lexicon being added (known findings: tags, pronunciations). R13 lexicon look-ups by id also constrain the version. R14 the importer never modifies its input (C07-R3 on _add). R15 remove() deletes what the specifier means: the limit / order / match analysis of find_lexicons (C08-R2, C08-R3). R13 also: find_lexicons calls of the importer pass id and version. R16 the skip decision of _precheck depends on look-ups in `lexicons` only.'),
     'decides': ['cascade closure', 'FK enforcement per connection', 'single writer', 'remove shape', 'dependency relink',
                 'skip dominance', 'no state outside the database', 'lookup tables complete for the lexicon being added'],
     'not_decided': ['equality of database images across histories', 'rowid reuse effects'],
@@ -619,15 +619,18 @@ def r16_skip_depends_on_the_database_only(ctx, res):
         res.find(key, v.loc(), '_precheck no longer returns its skip map')
         return
     cell = rets[0][1]
-    trues = [r for r in v.rows if r[0] == 'store' and r[1].startswith(cell + '[') and r[1].endswith('] = True')]
-    res.inst(key, v.loc(), f'{len(trues)} skip decisions')
-    if len(trues) != 2:
-        res.find(key, v.loc(), f'_precheck skips under {len(trues)} conditions; expected: already added / base of the extension not installed')
-    for r in trues:
-        for g in r[2]:
-            if cell in g or not ("FROM lexicons" in g or g in ("$1.get('extends')",)):
-                res.find(key, v.loc(r[4]), f'_precheck skips a lexicon under `{g[:100]}`: the decision must depend only on look-ups in the '
-                                           f'`lexicons` table (and on the lexicon being an extension), not on the skip map or other state')
+    stores = [r for r in v.rows if r[0] == 'store' and r[1].startswith(cell + '[')]
+    res.inst(key, v.loc(), f'{len(stores)} stores into the skip map')
+    if not stores:
+        res.find(key, v.loc(), '_precheck never fills its skip map')
+    for r in stores:
+        value = r[1].split('] = ', 1)[1] if '] = ' in r[1] else ''
+        for g in list(r[2]) + [value]:
+            if re.search(re.escape(cell) + r'(?!\d)', g):
+                res.find(key, v.loc(r[4]), f'_precheck decides a skip with `{g[:100]}`, which reads the skip map itself: whether a lexicon is '
+                                           f'skipped must depend only on what is installed (look-ups in `lexicons`), not on the fate of the '
+                                           f'other lexicons of the resource')
+
 
 RULES = [
     ('C05-R1', r1_cascade_closure, 40),
